@@ -3,7 +3,9 @@
 <root>/prompts/<id>.txt handed to fresh sub-agents that seed a property-breaking change.  The prompt contains the
 property text and the worktree path only - nothing about /verif."""
 import json, os, subprocess, sys
-root = sys.argv[1]; ids = sys.argv[2:]
+root = sys.argv[1]; ids = [a for a in sys.argv[2:] if not a.startswith("--focus=")]
+focus = ([a[len("--focus="):] for a in sys.argv[2:] if a.startswith("--focus=")] or
+         ["Prefer a change site that is NOT the first one that comes to mind for this property: a secondary code path, a rarely taken branch, a clean-up or error path, an interaction between two modules."])[0]
 props = {}
 for l in open(os.path.join(os.path.dirname(__file__), "..", "properties.jsonl")):
     p = json.loads(l); props[p["id"]] = p
@@ -21,7 +23,7 @@ Requirements for the change:
 - The library must still compile, and the existing test suite must still pass with it.
 - It must look like a plausible mistake or "optimisation" a maintainer could make (off-by-one, wrong comparison, missing re-check, dropped signal, reordered statements, stale pointer, wrong variable, missing cleanup, wrong tie-break...). No deliberately obfuscated or malicious code, no new debug output.
 - It must need something SPECIFIC to manifest: a particular interleaving or same-instant tie, a fault/interrupt/timeout at a particular point, a multi-step sequence of operations, an unusual input or size threshold, or two cooperating sites that each look fine alone. It must NOT be something ordinary use or the existing tests expose at once.
-- Prefer a change site that is NOT the first one that comes to mind for this property: a secondary code path, a rarely taken branch, a clean-up or error path, an interaction between two modules.
+- {focus}
 - It must make the library violate the property as stated above (observable through the public API / internal API the property is anchored in), on at least one valid program (one that respects documented preconditions). Be aware the pristine library may already have quirks; your demonstration must PASS on the pristine tree and FAIL with your change, so pick a behaviour that is correct in the pristine tree.
 
 Deliverables, all written into {wt}/seed_out/ :
@@ -43,6 +45,6 @@ for id in ids:
     p = props[id]; wt = os.path.join(root, id)
     if not os.path.isdir(wt):
         subprocess.check_call(["git", "-C", "/repo", "worktree", "add", "-q", "--detach", wt, "HEAD"])
-    s = tmpl.format(wt=wt, id=id, title=p["title"], statement=p["statement"], qtext=p["quantifier"]["text"], files=", ".join(p["anchors"]["files"]))
+    s = tmpl.format(focus=focus, wt=wt, id=id, title=p["title"], statement=p["statement"], qtext=p["quantifier"]["text"], files=", ".join(p["anchors"]["files"]))
     open(os.path.join(root, "prompts", id + ".txt"), "w").write(s)
 print("ok", ids)
